@@ -521,6 +521,8 @@ class ExprMixin:
         if text.startswith("logging.") or text.startswith("self.fhs_logger.") or text == "print":
             return V(NONE), st
         d = self.dotted(fn, frame, st)
+        if d is not None and isinstance(fn, ast.Name) and d.split(".")[-1] in self.p.classes and d.split(".")[0] == "hashstore":
+            d = None  # a class of the package imported by name
         if d is not None:
             return self.call_dotted(d, n, st, frame, out)
         if isinstance(fn, ast.Name):
@@ -718,11 +720,18 @@ class ExprMixin:
                 ls[lid] = EMPTY
                 return V(lid), st.set(lists=ls)
             el, st = self.elements(args[0], st, frame, n)
+            if name in ("list", "set"):
+                # a fresh mutable container: tracked, so that later append/add are seen
+                lid = ("list", (frame.func.qual, n.lineno, n.col_offset, frame.ctx))
+                ls = dict(st.lists)
+                ls[lid] = el
+                return V(lid), st.set(lists=ls)
             return V(("listof", el)), st
         if name == "dict":
             if args and len(args[0]) == 1 and tag(next(iter(args[0]))) == "zip":
                 z = next(iter(args[0]))
-                return V(("dictzip", z[1], z[2])), st
+                ka, st = self.elements(z[1], st, frame, n)
+                return V(("dictzip", z[1], z[2], ka)), st
             if not args and not kw:
                 return V(("dictobj", (frame.func.qual, n.lineno, n.col_offset, frame.ctx))), st
             return V(("callres", "dict", n.lineno)), st
@@ -803,6 +812,8 @@ class ExprMixin:
 
     def call_on_term(self, r, meth, args, kw, n, st, frame, out):
         tg = tag(r)
+        if tg == "self" and r[1] == "FileHashStore" and frame.func.cls != "FileHashStore":
+            return self.api_call(meth, args, kw, n, st, frame, out)
         if tg in ("self", "inst", "class"):
             cls = r[1]
             f = self.p.method(cls, meth)
@@ -906,9 +917,9 @@ class ExprMixin:
                 return V(("hexdigest", r[1])), st
         if tg == "boundmethod":
             pass
-        if tg == "argparser" or (tg == "iattr" and meth in ("parse_args", "add_argument")):
-            if meth == "parse_args":
-                return V(("argsns",)), st
+        if meth == "parse_args":
+            return V(("argsns",)), st
+        if meth == "add_argument":
             return V(NONE), st
         if tg == "selfattr" or tg == "iattr":
             # client: self.hashstore.<api>() / hashstore_c.hashstore.<api>()
@@ -1006,8 +1017,10 @@ class ExprMixin:
         if a.kwarg:
             env[a.kwarg.arg] = V(("unknown", "kwargs"))
         argmap = {k: v for k, v in env.items() if k in params}
-        self.calls.append({"callee": qual, "node": node, "ctx": frame.ctx, "func": frame.func, "state": st,
-                           "args": args, "kw": kw, "argmap": argmap, "entry": self.entry, "mode": self.mode})
+        callrec = {"callee": qual, "node": node, "ctx": frame.ctx, "func": frame.func, "state": st,
+                   "args": args, "kw": kw, "argmap": argmap, "entry": self.entry, "mode": self.mode, "ret": None,
+                   "after": None}
+        self.calls.append(callrec)
         self.stats["calls_inlined"] += 1
         argterms = set()
         for v in env.values():
@@ -1019,9 +1032,12 @@ class ExprMixin:
         o = self.call_body(f, st.set(env=env), nf)
         for l, s in o.raises.items():
             out.add_raise(l, s.set(env=caller_env))
+        callrec["raises"] = sorted(o.raises, key=str)
         if o.ret is None:
             return EMPTY, None
+        callrec["ret"] = o.retval
         after = o.ret.set(env=caller_env)
+        callrec["after"] = after
         dn = set(after.done)
         dn.add(("call", qual))
         for pn, v in argmap.items():
